@@ -55,30 +55,106 @@ def cfg_table(ctx):
     head = g.of[loop]
     start = C.succ_by_label(head, "iter")[0]
 
-    def key_value(expr, key):
-        """Concrete string value of an expression over the key variable."""
-        if isinstance(expr, ast.Name) and expr.id == kv:
-            return key
-        if isinstance(expr, ast.Call) and isinstance(expr.func, ast.Attribute) and not expr.args:
-            base = key_value(expr.func.value, key)
-            if base is not None and expr.func.attr in ("lower", "strip", "casefold", "upper"):
-                return getattr(base, expr.func.attr)()
-        if isinstance(expr, ast.Call) and isinstance(expr.func, ast.Attribute) and expr.func.attr == "replace" and len(expr.args) == 2:
-            base = key_value(expr.func.value, key)
-            a, b = const_str(expr.args[0]), const_str(expr.args[1])
-            if base is not None and a is not None and b is not None:
-                return base.replace(a, b)
-        cs = const_str(expr)
-        return cs
+    mod = fn.module
+    mconsts = {}
+    for name, vals in mod.assigns.items():
+        if len(vals) == 1:
+            try:
+                mconsts[name] = ast.literal_eval(vals[0])
+            except Exception:
+                pass
+
+    class Unk(Exception):
+        pass
+
+    STR_METHODS = {"lower", "upper", "strip", "casefold", "replace", "split", "splitlines", "startswith", "endswith", "lstrip", "rstrip", "title"}
+
+    def ev(e, env):
+        """Value of an expression for the representative key / value strings of this row; Unk outside the small language."""
+        if isinstance(e, ast.Constant):
+            return e.value
+        if isinstance(e, ast.Name):
+            if e.id in env:
+                if env[e.id] is Unk:
+                    raise Unk(e.id)
+                return env[e.id]
+            if e.id in mconsts:
+                return mconsts[e.id]
+            raise Unk(e.id)
+        if isinstance(e, (ast.List, ast.Tuple, ast.Set)):
+            vals = [ev(x, env) for x in e.elts]
+            return vals if isinstance(e, ast.List) else (tuple(vals) if isinstance(e, ast.Tuple) else set(vals))
+        if isinstance(e, ast.Dict) and all(k is not None for k in e.keys):
+            return {ev(k, env): ev(v, env) for k, v in zip(e.keys, e.values)}
+        if isinstance(e, ast.Call) and isinstance(e.func, ast.Attribute) and not e.keywords:
+            base = ev(e.func.value, env)
+            args = [ev(a, env) for a in e.args]
+            if isinstance(base, str) and e.func.attr in STR_METHODS:
+                return getattr(base, e.func.attr)(*args)
+            if isinstance(base, dict) and e.func.attr == "get" and 1 <= len(args) <= 2:
+                return base.get(*args)
+            raise Unk(norm(e))
+        if isinstance(e, ast.Call) and isinstance(e.func, ast.Name) and e.func.id in ("str", "list", "bool", "len", "tuple") and len(e.args) == 1 and not e.keywords \
+                and e.func.id not in env:
+            return {"str": str, "list": list, "bool": bool, "len": len, "tuple": tuple}[e.func.id](ev(e.args[0], env))
+        if isinstance(e, ast.Subscript) and not isinstance(e.slice, ast.Slice):
+            base, k = ev(e.value, env), ev(e.slice, env)
+            try:
+                return base[k]
+            except Exception:
+                raise Unk(norm(e))
+        if isinstance(e, ast.Compare) and len(e.ops) == 1:
+            l, r, op = ev(e.left, env), ev(e.comparators[0], env), e.ops[0]
+            try:
+                if isinstance(op, ast.Eq):
+                    return l == r
+                if isinstance(op, ast.NotEq):
+                    return l != r
+                if isinstance(op, ast.In):
+                    return l in r
+                if isinstance(op, ast.NotIn):
+                    return l not in r
+            except TypeError:
+                pass
+            raise Unk(norm(e))
+        if isinstance(e, ast.BoolOp):
+            vals = [ev(v, env) for v in e.values]
+            out = vals[0]
+            for v in vals[1:]:
+                out = (out and v) if isinstance(e.op, ast.And) else (out or v)
+            return out
+        if isinstance(e, ast.UnaryOp) and isinstance(e.op, ast.Not):
+            return not ev(e.operand, env)
+        if isinstance(e, ast.IfExp):
+            return ev(e.body, env) if ev(e.test, env) else ev(e.orelse, env)
+        if isinstance(e, (ast.ListComp, ast.GeneratorExp)) and len(e.generators) == 1 and isinstance(e.generators[0].target, ast.Name):
+            gen = e.generators[0]
+            out = []
+            for item in ev(gen.iter, env):
+                env2 = dict(env)
+                env2[gen.target.id] = item
+                if all(ev(c, env2) for c in gen.ifs):
+                    out.append(ev(e.elt, env2))
+            return out
+        raise Unk(norm(e)[:40])
+
+    def kind_of(v, text):
+        if isinstance(v, bool):
+            return "bool:%s" % v
+        if isinstance(v, list):
+            return "list"
+        if isinstance(v, str):
+            # the representative value handed on as it is written in the file (or a lower-cased / stripped form of it)
+            return "str"
+        return "?"
 
     table = {}
     for key in sorted({k.lstrip("-") for k in DOC}):
         for vclass in ("true", "false", "other"):
-            state = {"val": "str"}
+            text = {"true": "true", "false": "false", "other": "some value"}[vclass]
+            env = {kv: key, vv: text}
+            state = {}
             stores = []
-
-            def val_text():
-                return {"true": "true", "false": "false", "other": "some value"}[vclass]
 
             def visit(n):
                 a = n.ast
@@ -86,55 +162,32 @@ def cfg_table(ctx):
                     return
                 if isinstance(a, ast.Assign) and len(a.targets) == 1:
                     t = a.targets[0]
-                    if isinstance(t, ast.Name) and t.id == vv:
-                        if isinstance(a.value, (ast.ListComp, ast.List)) or (isinstance(a.value, ast.Call) and isinstance(a.value.func, ast.Attribute) and a.value.func.attr in ("split", "splitlines")):
-                            state["val"] = "list"
-                        else:
-                            state["val"] = "?"
-                    elif isinstance(t, ast.Subscript) and isinstance(t.value, ast.Name) and t.value.id == kw_param:
-                        name = key_value(t.slice, key)
-                        v = a.value
-                        if isinstance(v, ast.Name) and v.id == vv:
-                            kind = state["val"]
-                        elif isinstance(v, ast.Constant) and isinstance(v.value, bool):
-                            kind = "bool:%s" % v.value
-                        elif isinstance(v, (ast.List, ast.ListComp)):
-                            kind = "list"
-                        else:
+                    if isinstance(t, ast.Name):
+                        try:
+                            env[t.id] = ev(a.value, env)
+                        except Unk:
+                            env[t.id] = Unk
+                        return
+                    if isinstance(t, ast.Subscript) and isinstance(t.value, ast.Name) and t.value.id == kw_param:
+                        try:
+                            name = ev(t.slice, env)
+                        except Unk:
+                            name = None
+                        try:
+                            kind = kind_of(ev(a.value, env), text)
+                        except Unk:
                             kind = "?"
                         stores.append((name, kind, a))
                         return
                 # any other statement that touches the keyword dictionary is outside the traced model
-                if a is not None and any(isinstance(x, ast.Name) and x.id == kw_param for x in ast.walk(a)) \
-                        and not (isinstance(a, ast.Assign) and len(a.targets) == 1 and isinstance(a.targets[0], ast.Subscript) and isinstance(a.targets[0].value, ast.Name) and a.targets[0].value.id == kw_param):
+                if a is not None and any(isinstance(x, ast.Name) and x.id == kw_param for x in ast.walk(a)):
                     state["opaque"] = norm(a)[:80]
 
             def atom(x):
-                if isinstance(x, ast.Compare) and len(x.ops) == 1:
-                    l = key_value(x.left, key)
-                    op = x.ops[0]
-                    lv = None
-                    if isinstance(x.left, ast.Call) and isinstance(x.left.func, ast.Attribute) and isinstance(x.left.func.value, ast.Name) \
-                            and x.left.func.value.id == vv and x.left.func.attr in ("lower", "strip"):
-                        lv = val_text()
-                    elif isinstance(x.left, ast.Name) and x.left.id == vv:
-                        lv = val_text()
-                    left = l if l is not None and lv is None else lv
-                    if left is None:
-                        return None
-                    try:
-                        r = ast.literal_eval(x.comparators[0])
-                    except Exception:
-                        return None
-                    if isinstance(op, ast.Eq):
-                        return left == r
-                    if isinstance(op, ast.NotEq):
-                        return left != r
-                    if isinstance(op, ast.In):
-                        return left in r
-                    if isinstance(op, ast.NotIn):
-                        return left not in r
-                return None
+                try:
+                    return bool(ev(x, env))
+                except Unk:
+                    return None
             try:
                 C.trace(g, start, atom, stop=[head], visit=visit)
             except C.Undetermined as exc:
@@ -154,6 +207,8 @@ def cfg_table(ctx):
 def run(ctx):
     ctx.trust("argparse / configparser semantics (dest derivation, store / store_true / nargs='+', configuration values are strings)")
     parsers = Parsers(ctx)
+    for bad in parsers.unreadable:
+        ctx.undecided("C20.1", parsers.fn, "an option is defined inside a loop whose table of values could not be read", bad)
     create = parsers.by_command("create")
     rows = create["rows"]
     ctx.floor("rows of the create sub-parser", 12, len(rows))
